@@ -80,6 +80,8 @@ pub struct LinkState {
     /// packets sent before this instant are held back by `slow_extra` ms (Op::Slow)
     pub slow_until: u64,
     pub slow_extra: u64,
+    /// the next packet of this class sent on the link is lost (Op::DropNext), not subject to heal
+    pub drop_next_class: Option<usize>,
     pub ledger: LinkLedger,
 }
 
@@ -222,6 +224,9 @@ impl NetInner {
         l.slow_until = until;
         l.slow_extra = extra_ms;
     }
+    pub fn drop_next(&mut self, a: Addr, b: Addr, class: usize) {
+        self.link(a, b).drop_next_class = Some(class);
+    }
     pub fn outage(&mut self, a: Addr, b: Addr, len_ms: u64) {
         let until = now_ms() + len_ms;
         let l = self.link(a, b);
@@ -288,6 +293,10 @@ impl NetInner {
         if now < l.slow_until {
             extra += l.slow_extra;
             l.ledger.delayed += 1;
+        }
+        if l.drop_next_class == Some(class) {
+            l.drop_next_class = None;
+            dropped = true;
         }
         if log {
             let desc = match &mm.body {
